@@ -126,9 +126,15 @@ func (m *Machine) callBuiltin(th *Thread, b *ssa.Builtin, args []Value, caller *
 				// overlapping copies (memmove semantics)
 				tmp := make([]Value, n)
 				for i := 0; i < n; i++ {
+					if src.cells[i].mon {
+						m.raceAccess(th, src.cells[i], false)
+					}
 					tmp[i] = src.cells[i].v
 				}
 				for i := 0; i < n; i++ {
+					if dst.cells[i].mon {
+						m.raceAccess(th, dst.cells[i], true)
+					}
 					dst.cells[i].v = copyValue(tmp[i])
 				}
 			}
@@ -136,6 +142,9 @@ func (m *Machine) callBuiltin(th *Thread, b *ssa.Builtin, args []Value, caller *
 			sym := m.toSym(src)
 			n = min(len(dst.cells), len(sym.b))
 			for i := 0; i < n; i++ {
+				if dst.cells[i].mon {
+					m.raceAccess(th, dst.cells[i], true)
+				}
 				dst.cells[i].v = sym.b[i]
 			}
 		default:
